@@ -872,4 +872,499 @@ theorem grunFrom_bwd : ∀ (cs : List Cmd) (s t : ML) (tr : List Ev), s.fwd = fa
         rw [e]
         exact ih _ _ _ hs ht (by simp [hs, ht, hi]) (by simp [hs]; omega) (by simp [ht]; omega)
 
+/-! ### the wrapper of `ModList.Start/Stop` around each module's callback (D21) -/
+
+theorem snoc_induction {α} (P : List α → Prop) (h0 : P []) (hs : ∀ l a, P l → P (l ++ [a])) : ∀ l, P l := by
+  have h : ∀ l : List α, P l.reverse := by
+    intro l
+    induction l with
+    | nil => simpa using h0
+    | cons a l ih => simpa using hs _ a ih
+  intro l
+  simpa using h l.reverse
+
+theorem wstate_append : ∀ (p q : List MAct) (ws : Wrap), wstate ws (p ++ q) = wstate (wstate ws p) q := by
+  intro p
+  induction p with
+  | nil => intro q ws; rfl
+  | cons a p ih => intro q ws; simp only [List.cons_append, wstate]; exact ih q _
+
+theorem wcallsFrom_append : ∀ (p q : List MAct) (ws : Wrap),
+    wcallsFrom ws (p ++ q) = wcallsFrom ws p ++ wcallsFrom (wstate ws p) q := by
+  intro p
+  induction p with
+  | nil => intro q ws; rfl
+  | cons a p ih => intro q ws; simp only [List.cons_append, wcallsFrom, wstate, ih, List.append_assoc]
+
+theorem wcalls_snoc (p : List MAct) (a : MAct) :
+    wcalls (p ++ [a]) = wcalls p ++ ((wstate {} p).step a).2.toList := by
+  simp [wcalls, wcallsFrom_append, wcallsFrom]
+
+theorem step_reported_mono (ws : Wrap) (a : MAct) (w : Nat) (h : w ∈ ws.reported) : w ∈ (ws.step a).1.reported := by
+  cases a with
+  | report w' b => simp only [Wrap.step]; split <;> simp [h]
+  | panic w' => simp only [Wrap.step]; split <;> simp [h]
+
+theorem step_dead_mono (ws : Wrap) (a : MAct) (w : Nat) (h : w ∈ ws.dead) : w ∈ (ws.step a).1.dead := by
+  cases a with
+  | report w' b => simp only [Wrap.step]; split <;> simp [h]
+  | panic w' => simp only [Wrap.step]; split <;> simp [h]
+
+theorem wstate_reported_mono : ∀ (p : List MAct) (ws : Wrap) (w : Nat), w ∈ ws.reported → w ∈ (wstate ws p).reported := by
+  intro p
+  induction p with
+  | nil => intro ws w h; exact h
+  | cons a p ih => intro ws w h; exact ih _ w (step_reported_mono ws a w h)
+
+theorem wstate_dead_mono : ∀ (p : List MAct) (ws : Wrap) (w : Nat), w ∈ ws.dead → w ∈ (wstate ws p).dead := by
+  intro p
+  induction p with
+  | nil => intro ws w h; exact h
+  | cons a p ih => intro ws w h; exact ih _ w (step_dead_mono ws a w h)
+
+/-- `reported` is set only by a report of that module -/
+theorem wstate_reported_src : ∀ (p : List MAct) (ws : Wrap) (w : Nat), w ∈ (wstate ws p).reported →
+    w ∈ ws.reported ∨ ∃ b, MAct.report w b ∈ p := by
+  intro p
+  induction p with
+  | nil => intro ws w h; exact .inl h
+  | cons a p ih =>
+    intro ws w h
+    rcases ih _ w h with h1 | ⟨b, hb⟩
+    · cases a with
+      | report w' b' =>
+        simp only [Wrap.step] at h1
+        split at h1
+        · exact .inl h1
+        · simp only [List.mem_cons] at h1
+          rcases h1 with rfl | h1
+          · exact .inr ⟨b', by simp⟩
+          · exact .inl h1
+      | panic w' =>
+        simp only [Wrap.step] at h1
+        split at h1 <;> exact .inl h1
+    · exact .inr ⟨b, List.mem_cons_of_mem _ hb⟩
+
+/-- `failedByPanic` is set only by a panic of that module -/
+theorem wstate_dead_src : ∀ (p : List MAct) (ws : Wrap) (w : Nat), w ∈ (wstate ws p).dead →
+    w ∈ ws.dead ∨ MAct.panic w ∈ p := by
+  intro p
+  induction p with
+  | nil => intro ws w h; exact .inl h
+  | cons a p ih =>
+    intro ws w h
+    rcases ih _ w h with h1 | hb
+    · cases a with
+      | report w' b' =>
+        simp only [Wrap.step] at h1
+        split at h1 <;> exact .inl h1
+      | panic w' =>
+        simp only [Wrap.step] at h1
+        split at h1
+        · exact .inl h1
+        · simp only [List.mem_cons] at h1
+          rcases h1 with rfl | h1
+          · exact .inr (by simp)
+          · exact .inl h1
+    · exact .inr (List.mem_cons_of_mem _ hb)
+
+/-- a `next` call made by a wrapper leaves one of that module's flags set -/
+theorem wcallsFrom_flag : ∀ (p : List MAct) (ws : Wrap) (w : Nat) (b : Bool), (w, b) ∈ wcallsFrom ws p →
+    w ∈ (wstate ws p).reported ∨ w ∈ (wstate ws p).dead := by
+  intro p
+  induction p with
+  | nil => intro ws w b h; simp [wcallsFrom] at h
+  | cons a p ih =>
+    intro ws w b h
+    simp only [wcallsFrom, List.mem_append] at h
+    rcases h with h | h
+    · simp only [wstate]
+      cases a with
+      | report w' b' =>
+        simp only [Wrap.step] at h ⊢
+        split at h
+        · simp at h
+        · simp only [Option.toList_some, List.mem_singleton, Prod.mk.injEq] at h
+          obtain ⟨rfl, _⟩ := h
+          rename_i hnd
+          simp only [hnd]
+          exact .inl (wstate_reported_mono p _ w (by simp))
+      | panic w' =>
+        simp only [Wrap.step] at h ⊢
+        split at h
+        · simp at h
+        · simp only [Option.toList_some, List.mem_singleton, Prod.mk.injEq] at h
+          obtain ⟨rfl, _⟩ := h
+          rename_i hnd
+          simp only [hnd]
+          exact .inr (wstate_dead_mono p _ w (by simp))
+    · exact ih _ w b h
+
+/-- an action of a module makes its wrapper call `next` then or has made it call `next` before -/
+theorem step_emits_or_flag (ws : Wrap) (a : MAct) :
+    (∃ b, (ws.step a).2 = some (a.who, b)) ∨ a.who ∈ ws.reported ∨ a.who ∈ ws.dead := by
+  cases a with
+  | report w b =>
+    simp only [Wrap.step, MAct.who]
+    split
+    · rename_i h; exact .inr (.inr (by simpa using h))
+    · exact .inl ⟨b, rfl⟩
+  | panic w =>
+    simp only [Wrap.step, MAct.who]
+    split
+    · rename_i h; exact .inr (.inl (by simpa using h))
+    · exact .inl ⟨false, rfl⟩
+
+/-- a set flag comes with a `next` call of that module's wrapper -/
+theorem flag_wcallsFrom : ∀ (p : List MAct) (ws : Wrap) (w : Nat),
+    (w ∈ (wstate ws p).reported ∨ w ∈ (wstate ws p).dead) →
+    (w ∈ ws.reported ∨ w ∈ ws.dead) ∨ ∃ b, (w, b) ∈ wcallsFrom ws p := by
+  intro p
+  induction p with
+  | nil => intro ws w h; exact .inl h
+  | cons a p ih =>
+    intro ws w h
+    rcases ih _ w h with h1 | ⟨b, hb⟩
+    · cases a with
+      | report w' b' =>
+        simp only [Wrap.step] at h1
+        split at h1
+        · exact .inl h1
+        · simp only [List.mem_cons] at h1
+          rcases h1 with (rfl | h1) | h1
+          · refine .inr ⟨b', ?_⟩
+            rename_i hnd
+            have hnd' : w ∉ ws.dead := by simpa using hnd
+            simp [wcallsFrom, Wrap.step, hnd']
+          · exact .inl (.inl h1)
+          · exact .inl (.inr h1)
+      | panic w' =>
+        simp only [Wrap.step] at h1
+        split at h1
+        · exact .inl h1
+        · simp only [List.mem_cons] at h1
+          rcases h1 with h1 | (rfl | h1)
+          · exact .inl (.inl h1)
+          · refine .inr ⟨false, ?_⟩
+            rename_i hnd
+            have hnd' : w ∉ ws.reported := by simpa using hnd
+            simp [wcallsFrom, Wrap.step, hnd']
+          · exact .inl (.inr h1)
+    · exact .inr ⟨b, by simp only [wcallsFrom, List.mem_append]; exact .inr hb⟩
+
+/-- every module that reported or panicked has a `next` call of its wrapper -/
+theorem acted_wcalls (acts : List MAct) (a : MAct) (ha : a ∈ acts) : ∃ b, (a.who, b) ∈ wcalls acts := by
+  obtain ⟨p, q, rfl⟩ := List.append_of_mem ha
+  have hsplit : wcalls (p ++ a :: q) = wcalls p ++ (((wstate {} p).step a).2.toList ++ wcallsFrom ((wstate {} p).step a).1 q) := by
+    simp [wcalls, wcallsFrom_append, wcallsFrom]
+  rcases step_emits_or_flag (wstate {} p) a with ⟨b, hb⟩ | hflag
+  · exact ⟨b, by rw [hsplit, hb]; simp⟩
+  · rcases flag_wcallsFrom p {} a.who hflag with h0 | ⟨b, hb⟩
+    · simp at h0
+    · exact ⟨b, by rw [hsplit]; exact List.mem_append_left _ hb⟩
+
+theorem next_no_calls (s : ML) (b : Bool) (w : Nat) (b' : Bool) : Ev.call w b' ∉ (s.next b).2 := by
+  cases b <;> simp only [ML.next, ML.doNow, Bool.not_false, Bool.not_true, ↓reduceIte, Bool.false_eq_true] <;>
+    (repeat' split) <;> simp
+
+theorem runFrom_append : ∀ (cs r : List (Nat × Bool)) (s : ML) (tr : List Ev),
+    runFrom s tr (cs ++ r) = runFrom (runFrom s tr cs).1 (runFrom s tr cs).2 r := by
+  intro cs
+  induction cs with
+  | nil => intro r s tr; rfl
+  | cons c cs ih => intro r s tr; obtain ⟨w, b⟩ := c; simp only [List.cons_append, runFrom]; exact ih r _ _
+
+theorem runFrom_prefix : ∀ (cs : List (Nat × Bool)) (s : ML) (tr : List Ev), ∃ rest, (runFrom s tr cs).2 = tr ++ rest := by
+  intro cs
+  induction cs with
+  | nil => intro s tr; exact ⟨[], by simp [runFrom]⟩
+  | cons c cs ih =>
+    intro s tr
+    obtain ⟨w, b⟩ := c
+    obtain ⟨rest, h⟩ := ih (s.next b).1 (tr ++ .call w b :: (s.next b).2)
+    exact ⟨.call w b :: (s.next b).2 ++ rest, by simp [runFrom, h]⟩
+
+/-- the `next` calls in the log of a `Filter` run are exactly the completion events fed to it -/
+theorem calls_runFrom : ∀ (cs : List (Nat × Bool)) (s : ML) (tr : List Ev), calls (runFrom s tr cs).2 = calls tr ++ cs := by
+  intro cs
+  induction cs with
+  | nil => intro s tr; simp [runFrom]
+  | cons c cs ih =>
+    intro s tr
+    obtain ⟨w, b⟩ := c
+    have hn : calls (s.next b).2 = [] := by
+      cases hc : calls (s.next b).2 with
+      | nil => rfl
+      | cons x l =>
+        have : x ∈ calls (s.next b).2 := by rw [hc]; simp
+        exact absurd ((mem_calls _ x.1 x.2).mp this) (next_no_calls s b x.1 x.2)
+    simp only [runFrom]
+    rw [ih, calls_append]
+    simp [calls, hn]
+
+theorem calls_run (n : Nat) (fwd : Bool) (cs : List (Nat × Bool)) : calls (run n fwd cs) = cs := by
+  have h0 : calls (filter n fwd).2 = [] := by
+    simp only [filter, ML.doNow]
+    (repeat' split) <;> simp [calls]
+  simp [run, calls_runFrom, h0]
+
+theorem run_snoc (n : Nat) (fwd : Bool) (cs : List (Nat × Bool)) (w : Nat) (b : Bool) :
+    ∃ s : ML, run n fwd (cs ++ [(w, b)]) = run n fwd cs ++ Ev.call w b :: (s.next b).2 := by
+  exact ⟨(runFrom (filter n fwd).1 (filter n fwd).2 cs).1, by simp [run, runFrom_snoc]⟩
+
+theorem Disciplined_snoc {tr : List Ev} (hd : Disciplined tr) (w : Nat) (b : Bool) (rest : List Ev)
+    (he : Ev.enter w ∈ tr) (hn : ∀ b', Ev.call w b' ∉ tr) (hr : ∀ w' b', Ev.call w' b' ∉ rest) :
+    Disciplined (tr ++ Ev.call w b :: rest) := by
+  intro p w' b' q heq
+  rcases List.append_eq_append_iff.mp heq with ⟨a', hp, hevs⟩ | ⟨c', htr, hc⟩
+  · cases a' with
+    | nil =>
+      simp only [List.append_nil] at hp
+      simp only [List.nil_append, List.cons.injEq, Ev.call.injEq] at hevs
+      obtain ⟨⟨rfl, rfl⟩, rfl⟩ := hevs
+      subst hp
+      exact ⟨he, hn⟩
+    | cons x a' =>
+      simp only [List.cons_append, List.cons.injEq] at hevs
+      have : Ev.call w' b' ∈ rest := by rw [hevs.2]; simp
+      exact absurd this (hr w' b')
+  · cases c' with
+    | nil =>
+      simp only [List.append_nil] at htr
+      simp only [List.nil_append, List.cons.injEq, Ev.call.injEq] at hc
+      obtain ⟨⟨rfl, rfl⟩, rfl⟩ := hc
+      subst htr
+      exact ⟨he, hn⟩
+    | cons x c' =>
+      simp only [List.cons_append, List.cons.injEq] at hc
+      obtain ⟨rfl, _⟩ := hc
+      exact hd p w' b' c' htr
+
+/-- **the wrapper keeps the discipline**: if every action is made by an entered module, each module
+reports at most once and panics at most once, then the `next` calls that reach `Filter` are made for
+entered modules, at most once per module. -/
+theorem wrapped_disciplined (n : Nat) (fwd : Bool) : ∀ acts, MDisciplined n fwd acts → Disciplined (wrun n fwd acts) := by
+  refine snoc_induction _ ?_ ?_
+  · intro _
+    intro p w b q heq
+    have : (w, b) ∈ calls (wrun n fwd []) := by rw [(mem_calls _ _ _), heq]; simp
+    simp [wrun, calls_run, wcalls, wcallsFrom] at this
+  · intro l a ih hd
+    have hdl : MDisciplined n fwd l := by
+      intro p x q heq
+      exact hd p x (q ++ [a]) (by rw [heq]; simp)
+    have ihl := ih hdl
+    obtain ⟨hent, hrep, hpan⟩ := hd l a [] (by simp)
+    simp only [wrun, wcalls_snoc]
+    cases hstep : ((wstate {} l).step a).2 with
+    | none => simpa [wrun] using ihl
+    | some c =>
+      simp only [Option.toList_some]
+      obtain ⟨w, b⟩ := c
+      -- the call is for the acting module, whose flags were both clear
+      have hw : w = a.who ∧ a.who ∉ (wstate {} l).reported ∧ a.who ∉ (wstate {} l).dead := by
+        cases a with
+        | report w' b' =>
+          simp only [Wrap.step] at hstep
+          split at hstep
+          · simp at hstep
+          · rename_i hnd
+            simp only [Option.some.injEq, Prod.mk.injEq] at hstep
+            refine ⟨hstep.1.symm, ?_, by simpa [MAct.who] using hnd⟩
+            intro hr
+            rcases wstate_reported_src l {} w' hr with h0 | ⟨b'', hb''⟩
+            · simp at h0
+            · exact hrep w' b' rfl b'' hb''
+        | panic w' =>
+          simp only [Wrap.step] at hstep
+          split at hstep
+          · simp at hstep
+          · rename_i hnr
+            simp only [Option.some.injEq, Prod.mk.injEq] at hstep
+            refine ⟨hstep.1.symm, by simpa [MAct.who] using hnr, ?_⟩
+            intro hdd
+            rcases wstate_dead_src l {} w' hdd with h0 | hb''
+            · simp at h0
+            · exact hpan w' rfl hb''
+      obtain ⟨rfl, hnr, hnd⟩ := hw
+      obtain ⟨s, hs⟩ := run_snoc n fwd (wcalls l) a.who b
+      rw [hs]
+      refine Disciplined_snoc ihl a.who b _ hent ?_ (fun w' b' => next_no_calls s b w' b')
+      intro b' hc
+      have : (a.who, b') ∈ wcalls l := by
+        have := (mem_calls _ _ _).mpr hc
+        simpa [wrun, calls_run] using this
+      rcases wcallsFrom_flag l {} a.who b' this with h | h
+      · exact hnr h
+      · exact hnd h
+
+/-- … and completeness carries over: a module that reported or panicked has had `next` called for it -/
+theorem wrapped_complete (n : Nat) (fwd : Bool) (acts : List MAct) (hc : MComplete n fwd acts) :
+    Complete (wrun n fwd acts) := by
+  intro m hm
+  have : ∃ a, a ∈ acts ∧ a.who = m := by
+    rcases hc m hm with ⟨b, hb⟩ | hp
+    · exact ⟨_, hb, rfl⟩
+    · exact ⟨_, hp, rfl⟩
+  obtain ⟨a, ha, rfl⟩ := this
+  obtain ⟨b, hb⟩ := acted_wcalls acts a ha
+  exact ⟨b, (mem_calls _ _ _).mp (by simpa [wrun, calls_run] using hb)⟩
+
+/-! ### node/app.App -/
+
+@[simp] theorem appEvs_append (a b : List NEv) : appEvs (a ++ b) = appEvs a ++ appEvs b := by
+  induction a with
+  | nil => rfl
+  | cons e a ih => cases e <;> simp [appEvs, ih]
+
+@[simp] theorem fins_append (a b : List NEv) : fins (a ++ b) = fins a ++ fins b := by
+  induction a with
+  | nil => rfl
+  | cons e a ih => cases e <;> simp [fins, ih]
+
+@[simp] theorem finXs_append (a b : List NEv) : finXs (a ++ b) = finXs a ++ finXs b := by
+  induction a with
+  | nil => rfl
+  | cons e a ih => cases e <;> simp [finXs, ih]
+
+theorem startedServices_proj (svc : List Bool) :
+    appEvs (startedServices svc) = [] ∧ fins (startedServices svc) = [] ∧ finXs (startedServices svc) = [] := by
+  unfold startedServices
+  generalize (List.range svc.length).filter (fun i => svc.getD i false) = l
+  induction l with
+  | nil => exact ⟨rfl, rfl, rfl⟩
+  | cons i l ih => simpa [appEvs, fins, finXs] using ih
+
+theorem nodeLog_append (svc : List Bool) (a b : List AEv) : nodeLog svc (a ++ b) = nodeLog svc a ++ nodeLog svc b := by
+  induction a with
+  | nil => rfl
+  | cons e a ih =>
+    cases e with
+    | begin st => simp [nodeLog, ih]
+    | ev ph x =>
+      cases x with
+      | finish f => cases ph <;> simp [nodeLog, ih]
+      | enter i => simp [nodeLog, ih]
+      | call w c => simp [nodeLog, ih]
+      | oob => simp [nodeLog, ih]
+
+/-- the node's closures do not change what the embedded App does -/
+theorem appEvs_nodeLog (svc : List Bool) (tr : List AEv) : appEvs (nodeLog svc tr) = tr := by
+  induction tr with
+  | nil => rfl
+  | cons e tr ih =>
+    cases e with
+    | begin st => simp [nodeLog, appEvs, ih]
+    | ev ph x =>
+      cases x with
+      | finish f => cases ph <;> simp [nodeLog, appEvs, ih, (startedServices_proj svc).1]
+      | enter i => simp [nodeLog, appEvs, ih]
+      | call w c => simp [nodeLog, appEvs, ih]
+      | oob => simp [nodeLog, appEvs, ih]
+
+/-- the caller's start callback is invoked exactly where the App's start phase reports, with the same value -/
+theorem fins_nodeLog (svc : List Bool) (tr : List AEv) : fins (nodeLog svc tr) = finishes (phaseEvs true tr) := by
+  induction tr with
+  | nil => rfl
+  | cons e tr ih =>
+    cases e with
+    | begin st => simp [nodeLog, fins, phaseEvs, ih]
+    | ev ph x =>
+      cases x with
+      | finish f => cases ph <;> simp [nodeLog, fins, phaseEvs, finishes, ih, (startedServices_proj svc).2.1]
+      | enter i => cases ph <;> simp [nodeLog, fins, phaseEvs, finishes, ih]
+      | call w c => cases ph <;> simp [nodeLog, fins, phaseEvs, finishes, ih]
+      | oob => cases ph <;> simp [nodeLog, fins, phaseEvs, finishes, ih]
+
+theorem finXs_nodeLog (svc : List Bool) (tr : List AEv) : finXs (nodeLog svc tr) = finishes (phaseEvs false tr) := by
+  induction tr with
+  | nil => rfl
+  | cons e tr ih =>
+    cases e with
+    | begin st => simp [nodeLog, finXs, phaseEvs, ih]
+    | ev ph x =>
+      cases x with
+      | finish f => cases ph <;> simp [nodeLog, finXs, phaseEvs, finishes, ih, (startedServices_proj svc).2.2]
+      | enter i => cases ph <;> simp [nodeLog, finXs, phaseEvs, finishes, ih]
+      | call w c => cases ph <;> simp [nodeLog, finXs, phaseEvs, finishes, ih]
+      | oob => cases ph <;> simp [nodeLog, finXs, phaseEvs, finishes, ih]
+
+theorem addModules_init : ∀ (k m : Nat), addModules k (App.init m) = App.init (m + k) := by
+  intro k
+  induction k with
+  | zero => intro m; rfl
+  | succ k ih =>
+    intro m
+    have : (App.init m).addModule = App.init (m + 1) := by simp [App.addModule, App.init]
+    simp only [addModules, this, ih]
+    congr 1; omega
+
+theorem step_not_prepared (a : App) (op : AOp) (h : a.st ≠ .prepared) : (a.step op).1.st ≠ .prepared := by
+  cases op with
+  | start => simp [App.step, h]
+  | stop =>
+    by_cases hn : a.st = .normal
+    · simp only [App.step, hn, ne_eq, not_true_eq_false, ↓reduceIte]
+      rcases onEvents_cases false (filter a.n false).2 { a with st := .stoping, stopML := some (filter a.n false).1 } with ⟨_, h'⟩ | ⟨_, h'⟩ <;>
+        rw [h'] <;> simp
+    · simp [App.step, hn, h]
+  | call ph w b =>
+    simp only [App.step]
+    cases hml : (if ph = true then a.startML else a.stopML) with
+    | none => exact h
+    | some ml =>
+      simp only
+      generalize hA : (if ph = true then { a with startML := some (ml.next b).1 } else { a with stopML := some (ml.next b).1 }) = a'
+      have hst : a'.st = a.st := by subst hA; cases ph <;> simp
+      rcases onEvents_cases ph (ml.next b).2 a' with ⟨_, h'⟩ | ⟨_, h'⟩
+      · rw [h', hst]; exact h
+      · rw [h']; cases ph <;> simp
+
+theorem start_step_not_prepared (a : App) (h : a.st = .prepared) : (a.step .start).1.st ≠ .prepared := by
+  simp only [App.step, h, ne_eq, not_true_eq_false, ↓reduceIte]
+  rcases onEvents_cases true (filter a.n true).2 { a with st := .starting, startML := some (filter a.n true).1 } with ⟨_, h'⟩ | ⟨_, h'⟩ <;>
+    rw [h'] <;> simp
+
+theorem App.runFrom_prefix : ∀ (ops : List AOp) (a : App) (tr : List AEv), ∃ rest, (App.runFrom a tr ops).2 = tr ++ rest := by
+  intro ops
+  induction ops with
+  | nil => intro a tr; exact ⟨[], by simp [App.runFrom]⟩
+  | cons op ops ih =>
+    intro a tr
+    obtain ⟨rest, h⟩ := ih (a.step op).1 (tr ++ (a.step op).2)
+    exact ⟨(a.step op).2 ++ rest, by simp [App.runFrom, h]⟩
+
+/-- once StartNode has been accepted, the node *is* its embedded App for every later operation
+other than a further accepted StartNode -/
+theorem node_runFrom_app : ∀ (ops : List NOp) (s : Node) (tr : List NEv), s.app.st ≠ .prepared →
+    (∀ op ∈ ops, ∀ k, op = NOp.startNode true k → k = 0) →
+    (Node.runFrom s tr ops).1.app = (App.runFrom s.app (appEvs tr) (ops.map NOp.toAOp)).1 ∧
+    appEvs (Node.runFrom s tr ops).2 = (App.runFrom s.app (appEvs tr) (ops.map NOp.toAOp)).2 := by
+  intro ops
+  induction ops with
+  | nil => intro s tr _ _; exact ⟨rfl, rfl⟩
+  | cons op ops ih =>
+    intro s tr hst hno
+    have hno' : ∀ op' ∈ ops, ∀ k, op' = NOp.startNode true k → k = 0 := fun op' h => hno op' (List.mem_cons_of_mem _ h)
+    have key : (s.step op).1.app = (s.app.step op.toAOp).1 ∧ appEvs (s.step op).2 = (s.app.step op.toAOp).2 ∧
+        (s.step op).1.env = s.env := by
+      cases op with
+      | startNode known adds =>
+        cases known with
+        | true =>
+          have h0 := hno _ (List.mem_cons_self) adds rfl
+          subst h0
+          simp only [Node.step, NOp.toAOp, addModules]
+          split
+          · simp [App.step, hst, appEvs]
+          · simp [App.step, hst, appEvs, nodeLog]
+        | false => simp [Node.step, NOp.toAOp, App.step, hst, appEvs]
+      | stopNode => simp [Node.step, NOp.toAOp, appEvs_nodeLog]
+      | call ph w b => simp [Node.step, NOp.toAOp, appEvs_nodeLog]
+    have hst' : (s.step op).1.app.st ≠ .prepared := by rw [key.1]; exact step_not_prepared _ _ hst
+    have := ih (s.step op).1 (tr ++ (s.step op).2) hst' hno'
+    simp only [Node.runFrom, List.map_cons, App.runFrom]
+    rw [appEvs_append, key.1, key.2.1] at this
+    exact this
+
 end Cell2v.Modules
